@@ -1714,13 +1714,15 @@ func (t *tScreen) parseRune(buf *bytes.Buffer, evs *[]Event) (bool, bool) {
 	return true, false
 }
 
-func (t *tScreen) scanInput(buf *bytes.Buffer, expire bool) {
+func (t *tScreen) scanInput(buf *bytes.Buffer, expire bool, stopQ chan struct{}) {
 	evs := t.collectEventsFromInput(buf, expire)
 
 	for _, ev := range evs {
 		select {
 		case t.eventQ <- ev:
 		case <-t.quit:
+			return
+		case <-stopQ:
 			return
 		}
 	}
@@ -1847,7 +1849,7 @@ func (t *tScreen) mainLoop(stopQ chan struct{}) {
 			// This lets us detect conflicts such as a lone ESC.
 			if buf.Len() > 0 {
 				if time.Now().After(t.keyexpire) {
-					t.scanInput(buf, true)
+					t.scanInput(buf, true, stopQ)
 				}
 			}
 			if buf.Len() > 0 {
@@ -1862,7 +1864,7 @@ func (t *tScreen) mainLoop(stopQ chan struct{}) {
 		case chunk := <-t.keychan:
 			buf.Write(chunk)
 			t.keyexpire = time.Now().Add(time.Millisecond * 50)
-			t.scanInput(buf, false)
+			t.scanInput(buf, false, stopQ)
 			if !t.keytimer.Stop() {
 				select {
 				case <-t.keytimer.C:
@@ -1897,12 +1899,17 @@ func (t *tScreen) inputLoop(stopQ chan struct{}) {
 				select {
 				case t.eventQ <- NewEventError(e):
 				case <-t.quit:
+				case <-stopQ:
 				}
 			}
 			return
 		}
 		if n > 0 {
-			t.keychan <- chunk[:n]
+			select {
+			case t.keychan <- chunk[:n]:
+			case <-stopQ:
+				return
+			}
 		}
 	}
 }
